@@ -6,6 +6,9 @@
 //      sender [release a]; the leaf is completed on thread C_i [release b]   (two references)
 //   n  like s, but the spawner waits until some join has been started before it calls nest()
 //      (a nest after the close: must complete done without starting its leaf)
+//   x  nest(throwing_leaf) then connect: the nested sender's connect() throws on an admitted
+//      sender (the caller catches; the half-built nest op must give its reference back); a rejected
+//      sender connects fine, is started and completes with done
 //   j  connect + start scope.join(); the continuation runs on the joiner's own thread
 //   r  call scope.end_scope() and return (what v1's request_stop() does to its v2 scope)
 // Every scope_reference is one model spawner ("ref k"); `!ref k` markers tell the projection which
@@ -29,6 +32,9 @@ struct Shared {
   using op_cr_t = connect_result_t<const nest_t&, vh::root_receiver<>>;
   manual_lifetime<op_rv_t> op_rv[MAXS];
   manual_lifetime<op_cr_t> op_cr[MAXS];
+  using nest_x_t = decltype(std::declval<v2::async_scope&>().nest(sc::throwing_leaf{0}));
+  manual_lifetime<connect_result_t<nest_x_t, vh::root_receiver<>>> op_x[MAXS];
+  sc::run_ctl rc;
   using join_t = decltype(std::declval<v2::async_scope&>().join());
   using jop_t = connect_result_t<join_t, sc::join_receiver>;
   manual_lifetime<jop_t> jop[MAXJ];
@@ -77,6 +83,7 @@ int main(int argc, char** argv) {
       char k = sp[i];
       int r = ref0[i];
       th.push_back([sh, i, k, r] {
+        sc::active_guard ag(&sh->rc);
         dsched::block_until([&] { return sh->setup; });
         if (k == 'n') dsched::block_until([&] { return sh->joins_started > 0; });
         auto& scope = sh->scope.get();
@@ -92,6 +99,19 @@ int main(int argc, char** argv) {
           return;
         }
         vh::root_receiver<> rcv{&sh->root[i], {}, sh->nestname[i]};
+        if (k == 'x') {
+          auto snd = scope.nest(sc::throwing_leaf{i});
+          sh->rejected[i] = !snd.scope_;
+          sh->nested[i] = true;
+          dsched::action("nest%d %s", i, sh->rejected[i] ? "rejected" : "admitted");
+          try {
+            sh->op_x[i].construct_with([&] { return unifex::connect(std::move(snd), rcv); });
+            unifex::start(sh->op_x[i].get());   // only an empty (rejected) sender gets here
+          } catch (const sc::connect_failure&) {
+            dsched::action("fault%d.caught", i);
+          }
+          return;
+        }
         if (k == 'c') {
           {
             auto snd = scope.nest(vh::leaf{&sh->ctl[i]});
@@ -117,9 +137,10 @@ int main(int argc, char** argv) {
       });
     }
     for (int i = 0; i < S; ++i) {
-      if (sp[i] == 'd') continue;
+      if (sp[i] == 'd' || sp[i] == 'x') continue;
       int r = ref0[i] + (sp[i] == 'c' ? 1 : 0);
       th.push_back([sh, i, r] {
+        sc::active_guard ag(&sh->rc);
         dsched::block_until([&] { return sh->ctl[i].started || (sh->nested[i] && sh->rejected[i]); });
         if (!sh->ctl[i].started) return;
         dsched::action("ref %d", r);
@@ -130,6 +151,7 @@ int main(int argc, char** argv) {
     for (int j = 0; j < J; ++j) {
       char jk = jn[j];
       th.push_back([sh, j, jk] {
+        sc::active_guard ag(&sh->rc);
         dsched::block_until([&] { return sh->setup; });
         auto& scope = sh->scope.get();
         if (jk == 'r') {
@@ -145,14 +167,16 @@ int main(int argc, char** argv) {
         dsched::action("join%d.start", j);
         sh->joins_started++;
         unifex::start(sh->jop[j].get());
-        sh->slot[j].run_when_ready();
+        if (!sh->slot[j].run_when_ready(&sh->rc)) sh->jst[j].completions = -1;
         sh->jop[j].destruct();
       });
     }
+    sh->rc.active = (int)th.size() - 1;
     return th;
   };
   sc::MonitorCfg cfg;
   cfg.joins_started = (int)std::count(jn.begin(), jn.end(), 'j');
+  if (sp.find('x') != std::string::npos) cfg.fault_op = "nest+connect";
   auto monitor = [&](const dsched::Result& r) -> std::string { return sc::scope_monitor(r, cfg); };
   return vh::drive(cli, make, monitor);
 }
